@@ -64,6 +64,7 @@ def crash_key(out, rc):
     m = re.search(r"DRIVER-ERROR (.*)", out)
     if m: raise common.Infra("driver refused a command: %s\n%s" % (m.group(1), out[-1500:]))
     return ("timeout", "", "", "driver timeout") if rc == 124 else ("exit-%s" % rc, "", "", out[-400:])
+HANGS = [0]     # watchdog deaths of the driver in this check (Rig.drive)
 def crash_text(out):
     """the report itself (not the shadow memory dump that follows it)"""
     for pat in ("==ERROR", "runtime error:", "FAULT sig"):
@@ -194,6 +195,15 @@ class Rig:
                     # everything was answered, the process-exit leak report belongs to the whole run: attribute to the last history
                     pass
                 res[hi] = (self.merge(got[1:], h), crash_key(out, rc), crash_text(out)); died = True; hi += 1
+                if res[hi - 1][1][0] in ("hang", "timeout"):
+                    # the driver's watchdog (3 s of CPU time / 60 s of wall clock for a call that takes a millisecond): each death is a
+                    # finding of its history; after 6 of them in this check the remaining histories are not run (empty, no verdict
+                    # about them) - the check ends in bounded time
+                    HANGS[0] += 1
+                    if HANGS[0] >= 6:
+                        for j in range(hi, len(histories)): res[j] = ([], None, "")
+                        self.ctx.add(histories_not_run_after_repeated_watchdog_deaths=len(histories) - hi)
+                        return res
                 break
             if not died:
                 if rc != 0:   # all answered, process failed at exit (LeakSanitizer): blame the run, not a history
@@ -325,7 +335,7 @@ def tlc_walks(rig, module, cfg, nbeh, depth):
 
 def need(label, have, wanted):
     miss = [w for w in wanted if not have.get(w)]
-    if miss: raise common.Infra("vacuous corpus (%s): never saw %s in %s" % (label, miss, dict(have)))
+    if miss and HANGS[0] < 6: raise common.Infra("vacuous corpus (%s): never saw %s in %s" % (label, miss, dict(have)))
 
 def run_histories(rig, comp, trace_module, what, evs_per_history):
     """execute abstract histories on the real code, validate with TLC, report; -> (results, counters)"""
